@@ -2,8 +2,12 @@
    statics) and adds driver entry points after it. */
 #define H_INTERPOSE_THREADS
 #include "interpose.h"
-#include "radsecproxy.c"
 #include "hworld.h"
+#include "list.h"
+/* scheduling point of the hand-off check: looking at a list in sendreply */
+#define list_first(l) h_list_first((l), __func__)
+#include "radsecproxy.c"
+#undef list_first
 #include "fticks.h"
 #include "fticks_hashmac.h"
 #include "hcommon.h"
@@ -485,6 +489,48 @@ static int udp_lsock = -1, udp_nas[16], udp_nnas;
 static struct sockaddr_in udp_laddr;
 static void *udp_thread;
 
+/* ---- reply-queue hand-off (C02): the real server-side writer threads, scheduled by the harness ---- */
+extern void *h_udpserverwr(void *arg);
+extern void *h_tcpserverwr(void *arg);
+static void *wr_thread[MAXCL];
+static unsigned wr_pre_mask; /* bit j: the writer runs at the j-th scheduling point of sendreply in an op */
+static int wr_point;
+int h_client_index_by_addr(const struct sockaddr *sa) {
+    int k;
+    for (k = 0; k < nwclients; k++)
+        if (wclients[k] && wclients[k]->addr && !memcmp(wclients[k]->addr, sa, sizeof(struct sockaddr_in)))
+            return k;
+    return -1;
+}
+int h_client_index_by_sock(int fd) {
+    int k;
+    for (k = 0; k < nwclients; k++)
+        if (wclients[k] && wr_thread[k] && wclients[k]->sock == fd)
+            return k;
+    return -1;
+}
+static void wr_point_hit(int k) {
+    if ((wr_pre_mask >> (wr_point < 31 ? wr_point : 31)) & 1)
+        h_writer_run(wr_thread[k]);
+    wr_point++;
+}
+static void wr_lock_hook(pthread_mutex_t *m, const char *fn) {
+    int k;
+    if (strcmp(fn, "sendreply"))
+        return;
+    for (k = 0; k < nwclients; k++)
+        if (wr_thread[k] && wclients[k] && &wclients[k]->replyq->mutex == m && !h_mutex_held(m))
+            wr_point_hit(k);
+}
+static void wr_list_hook(struct list *l, const char *fn) {
+    int k;
+    if (strcmp(fn, "sendreply"))
+        return;
+    for (k = 0; k < nwclients; k++)
+        if (wr_thread[k] && wclients[k] && wclients[k]->replyq->entries == l && !h_mutex_held(&wclients[k]->replyq->mutex))
+            wr_point_hit(k);
+}
+
 static int fake_clientradput(struct server *s, unsigned char *rad, int radlen) {
     h_event("send", s->conf->name, rad, radlen);
     return radput_ok;
@@ -556,6 +602,7 @@ static void put_digest(FILE *out) {
 
 static void put_tail(FILE *out) {
     char *ev = h_events_take(), *tr = h_transcript_take();
+    wr_point = 0;
     fputs(ev, out);
     put_digest(out);
     fprintf(out, " ##%s", tr);
@@ -572,6 +619,16 @@ static int op_cfg(int argc, char **argv, FILE *out) {
     h_threads_reset();
     h_rq_reset();
     h_rewrite_reset();
+    for (i = 0; i < nwclients; i++)
+        if (wr_thread[i] && wclients[i] && wclients[i]->sock >= 0 && wclients[i]->conf->type != RAD_UDP && wclients[i]->conf->type != RAD_DTLS) {
+            close(wclients[i]->sock);
+            wclients[i]->sock = -1;
+        }
+    memset(wr_thread, 0, sizeof(wr_thread));
+    wr_pre_mask = 0;
+    wr_point = 0;
+    h_lock_hook = wr_lock_hook;
+    h_list_hook = wr_list_hook;
     nwclients = 0;
     radput_ok = 1;
     udp_thread = NULL;
@@ -885,12 +942,60 @@ static int op_pop(int argc, char **argv, FILE *out) {
     return 1;
 }
 
+/* wrstart <k>: the real writer thread of client k's transport starts and runs until it sleeps on the empty queue */
+static int op_wrstart(int argc, char **argv, FILE *out) {
+    int k;
+    struct client *c;
+    pthread_t th;
+    if (argc != 1 || !world_ready)
+        return 0;
+    k = atoi(argv[0]);
+    if (k < 0 || k >= nwclients || !(c = wclients[k]) || wr_thread[k])
+        return 0;
+    if (c->conf->type == RAD_UDP || c->conf->type == RAD_DTLS) {
+        if (h_pthread_create(&th, NULL, h_udpserverwr, c->replyq))
+            return 0;
+        wr_thread[k] = h_thread_find(c->replyq);
+    } else {
+        c->sock = open("/dev/null", O_WRONLY);
+        if (c->sock < 0 || h_pthread_create(&th, NULL, h_tcpserverwr, c))
+            return 0;
+        wr_thread[k] = h_thread_find(c);
+    }
+    if (!wr_thread[k])
+        return 0;
+    fputs("wr", out);
+    put_tail(out);
+    return 1;
+}
+/* wrrun <k>: the scheduler gives client k's writer the processor until it sleeps again */
+static int op_wrrun(int argc, char **argv, FILE *out) {
+    int k, ran;
+    if (argc != 1 || !world_ready)
+        return 0;
+    k = atoi(argv[0]);
+    if (k < 0 || k >= nwclients || !wclients[k] || !wr_thread[k])
+        return 0;
+    ran = h_writer_run(wr_thread[k]);
+    fprintf(out, "wr ran=%d asleep=%d", ran, h_writer_asleep_unsignalled(wr_thread[k]));
+    put_tail(out);
+    return 1;
+}
+/* wrpre <mask>: at which scheduling points of sendreply (bit j = j-th point in an op) a writer gets to run */
+static int op_wrpre(int argc, char **argv, FILE *out) {
+    if (argc != 1)
+        return 0;
+    wr_pre_mask = (unsigned)strtoul(argv[0], NULL, 10);
+    fputs("ok", out);
+    return 1;
+}
+
 static int op_rmclient(int argc, char **argv, FILE *out) {
     int k;
     if (argc != 1 || !world_ready)
         return 0;
     k = atoi(argv[0]);
-    if (k < 0 || k >= nwclients || !wclients[k])
+    if (k < 0 || k >= nwclients || !wclients[k] || wr_thread[k])
         return 0;
     removeclient(wclients[k]);
     wclients[k] = NULL;
@@ -1067,6 +1172,9 @@ int h_rsp_op(const char *op, int argc, char **argv, FILE *out) {
     if (!strcmp(op, "srvstate")) return op_srvstate(argc, argv, out);
     if (!strcmp(op, "pop")) return op_pop(argc, argv, out);
     if (!strcmp(op, "rmclient")) return op_rmclient(argc, argv, out);
+    if (!strcmp(op, "wrstart")) return op_wrstart(argc, argv, out);
+    if (!strcmp(op, "wrrun")) return op_wrrun(argc, argv, out);
+    if (!strcmp(op, "wrpre")) return op_wrpre(argc, argv, out);
     if (!strcmp(op, "radput")) return op_radput(argc, argv, out);
     if (!strcmp(op, "rewrite")) return op_rewrite(argc, argv, out);
     if (!strcmp(op, "udplisten")) return op_udplisten(argc, argv, out);
